@@ -17,6 +17,9 @@ Decided (DESIGN.md section 5, C09):
     S1-chunk-length-is-library-count on every non-throwing path from the pull call to a return the returned string has been cut to
                                      exactly the byte count the library reported (result variable / next_out - data()), and is not
                                      modified afterwards
+    N2-retry-only-with-input-left    (stream functions; instances exist once read() loops) a path that calls inflate / BZ2_bzDecompress
+                                     again after "OK" has tested avail_in: with no input left an OK without output means truncated
+                                     data and must end in a throw, not in another pull
     N1-no-empty-chunk-while-more     assuming the library reported "more to come" (gzread/read > 0, BZ_OK, Z_OK) the function cannot
                                      return a possibly empty chunk: the count is >= 1 by convention (and S1 holds), or the path tests
                                      the count, or it pulls again.  The same for a path that has just started the next stream after a
@@ -38,8 +41,8 @@ Decided (DESIGN.md section 5, C09):
                                      try whose catch (...) forwards current_exception() to the queue
     T2-every-chunk-forwarded         ... every chunk read is pushed to the queue unless at_end_of_data(chunk) held
 
-Findings on the pristine tree (genuine, see KNOWN): X2 for Bzip2Decompressor (F5a), X1/X2/N1 for both buffer decompressors (F5b),
-and N1 for Bzip2Decompressor on the path that has just reopened the handle for the next stream.
+Findings on the pristine tree (genuine, see KNOWN): X1/X2/N1 for both buffer decompressors (F5b) and N1 for Bzip2Decompressor on the
+path that has just reopened the handle for the next stream (F11).  F5a (X2 for Bzip2Decompressor) is fixed in the repository.
 
 Normal form.  The path rules (S1, N1, X1-X4, K1, K2, T1, T2) do not look at read() / close() / run_in_thread as written but at
 c09_util.normalized(): helpers of the same class called on `this` and free io-layer helpers that contain one of the library calls
@@ -66,7 +69,7 @@ from ..c08_util import in_io_layer
 from ..c09_util import (DECOMP, RTM, OPEN_CLOSE, dedupe, decompressor_classes, read_path_functions, method_of, pull_calls,
                         call_name, assume, walk_from, returned_local, stream_field, count_resizes, count_test_elements,
                         unconsumed_zero_guard, guard_signature, end_declarations, string_call_on, STRING_MUTATORS, addr_carrier,
-                        field_assigned_from, data_sources, handle_arg_is, helper_reaches, normalized, catch_all_handler, nodes_in_handler, must_pass, is_exit, scn, reaches,
+                        field_assigned_from, data_sources, handle_arg_is, helper_reaches, normalized, state_env, input_test_elements, catch_all_handler, nodes_in_handler, must_pass, is_exit, scn, reaches,
                         assigned_from)
 from ..flow import path_search, describe_path
 
@@ -75,10 +78,7 @@ NS = 'osmium::io::'
 # genuine findings on the pristine tree: (rule, key, explanation).  Reported with R.bad; the coordinator decides between a
 # repository fix and a known_findings.txt line.
 KNOWN = [
-    ('X2-end-only-when-input-consumed', NS + 'Bzip2Decompressor::read#end-declared@stream-end+feof',
-     'F5a. On BZ_STREAM_END with feof(file) true, read() sets m_stream_end without asking BZ2_bzReadGetUnused: libbz2 has read ahead '
-     '(5000-byte buffer on top of stdio), so the bytes of the following stream(s) are already in its buffer and are dropped. '
-     'Two 27-byte OPL lines, each bzip2-compressed, concatenated into one file: 1 node delivered instead of 2.'),
+    # F5a (X2, Bzip2Decompressor::read#end-declared@stream-end+feof) was fixed in /repo 6479008; the reverted fix is mutant revert-fix-F5a
     ('X1-stream-end-continues', NS + 'GzipBufferDecompressor::read#inflate:next-stream-started',
      'F5b. After Z_STREAM_END nothing re-initialises the z_stream; read() clears m_buffer whatever avail_in says: the second of two '
      'concatenated gzip members in a memory buffer is ignored (1 node instead of 2).'),
@@ -293,6 +293,16 @@ def _one_pull(fb, R, fn, call, pull, X):
                     'so truncated input is accepted as a shorter file: %s'
                     % (name, pull.names.get('more', 'more'), E.describe(fn, o.exits[0]) if o.exits else ''),
                     'every path tests the count or pulls again')
+            # ---- N2: pulling again after an OK without output is only sound while input is left (else: truncated => throw)
+            if pull.unused == ('avail_in',):
+                plain = assume(fb, fn, call, pull, pull.more)
+                if plain is not None and plain.retry:
+                    o3 = assume(fb, fn, call, pull, pull.more, stop_at=input_test_elements(fn, call, pull))
+                    R.check(o3 is not None and not o3.retry and not o3.truncated, 'N2-retry-only-with-input-left', key + ':pulls-again', site,
+                            '%s reported %s and read() calls it again on a path that never looked at avail_in: when the input has run dry '
+                            '(truncated stream) %s keeps returning %s without output -- the truncation is never reported (endless loop '
+                            'instead of an error)' % (name, pull.names.get('more', 'more'), name, pull.names.get('more', 'more')),
+                            'every path back to the pull call passes a test of avail_in')
 
     if pull.stream_end is None:
         return
@@ -315,7 +325,7 @@ def _one_pull(fb, R, fn, call, pull, X):
     if reinits:
         worst = None
         for r2 in reinits:
-            o2 = walk_from(fb, fn, r2, site=call['id'], stop_at=ctests)
+            o2 = walk_from(fb, fn, r2, site=call['id'], stop_at=ctests, env=state_env(fn, call, until=r2['id']))
             if o2 is None or o2.truncated:
                 R.broken('%s (%s): cannot walk from %s' % (fn.q, fn.loc(r2['id']), r2['q']))
                 continue
@@ -551,8 +561,9 @@ def run(ctx):
     R.expect('N0-read-override-pulls', 6)            # Dummy (not real), No, Gzip, GzipBuffer, Bzip2, Bzip2Buffer
     R.expect('S1-chunk-length-is-library-count', 5)  # reliable_read gzread inflate BZ2_bzRead BZ2_bzDecompress
     R.expect('N1-no-empty-chunk-while-more', 5)      # the same five under "more" (+ Bzip2Decompressor after the reopen, while it reopens)
+    R.expect('N2-retry-only-with-input-left', 0)     # no instance until the buffer decompressors loop (F5b fix: 2)
     R.expect('X1-stream-end-continues', 3)           # BZ2_bzRead inflate BZ2_bzDecompress
-    R.expect('X2-end-only-when-input-consumed', 3)   # 4 today (Bzip2Decompressor has two declarations)
+    R.expect('X2-end-only-when-input-consumed', 3)   # one declaration per stream-end-aware read()
     R.expect('K1-close-closes-library-handle', 2)    # GzipDecompressor Bzip2Decompressor
     R.expect('K2-handle-reset-before-throw', 2)
     R.expect('T1-read-thread-closes-in-try', 3)
@@ -574,7 +585,8 @@ def _selftest(fb, R):
     read_thread_rules(fb, R)
     # the conforming twins must stay silent: several rules fire on today's tree, this is their evidence that they can pass
     wrong = [(i.rule, i.key) for i in R.instances.values() if not i.ok and '::Good' in i.key]
-    need = [('X1-stream-end-continues', NS + 'GoodGzipBufferDecompressor::read#inflate:next-stream-started'),
+    need = [('N2-retry-only-with-input-left', NS + 'GoodGzipBufferDecompressor::read#inflate:Z_OK:pulls-again'),
+            ('X1-stream-end-continues', NS + 'GoodGzipBufferDecompressor::read#inflate:next-stream-started'),
             ('X2-end-only-when-input-consumed', NS + 'GoodGzipBufferDecompressor::read#end-declared@stream-end+unused-empty'),
             ('N1-no-empty-chunk-while-more', NS + 'GoodGzipBufferDecompressor::read#inflate:Z_OK'),
             ('N1-no-empty-chunk-while-more', NS + 'GoodBzip2Decompressor::read#BZ2_bzRead:after-next-stream-started'),
@@ -601,5 +613,6 @@ def _selftest(fb, R):
 
 SELFTESTS = [(r, 'c09_decomp.cpp', _selftest) for r in (
     'E1-read-error-reaches-throw', 'E1-nothrow-explicit-discard', 'S1-chunk-length-is-library-count', 'N1-no-empty-chunk-while-more',
+    'N2-retry-only-with-input-left',
     'X1-stream-end-continues', 'X2-end-only-when-input-consumed', 'X3-unused-copied-before-close', 'X4-reopen-receives-unused',
     'K1-close-closes-library-handle', 'K2-handle-reset-before-throw', 'T1-read-thread-closes-in-try', 'T2-every-chunk-forwarded')]
